@@ -528,6 +528,15 @@ func (p *Prog) patternOfMatch(v ssa.Value) (string, int, bool) {
 	}
 	n, recv, _, _ := methodCall(ia.X)
 	if n != "FindStringSubmatch" {
+		// the match handed out by a helper that answers nil for a text it refuses and the
+		// submatches otherwise
+		if c, _ := callOf(ia.X); c != nil {
+			if _, inner := nilOrValueHelper(c); inner != nil {
+				n, recv, _, _ = methodCall(inner)
+			}
+		}
+	}
+	if n != "FindStringSubmatch" {
 		return "", 0, false
 	}
 	pat, ok := p.regexOfValue(recv)
@@ -1249,4 +1258,30 @@ func ruleP06Shape(p *Prog, r *Report) {
 		}
 		r.check(ok, rule, "parallel:pairwise", p.pos(pp.Pos()), fmt.Sprintf("values and blocks are appended pairwise from the same source at %d sites", len(va)), "the parallel merge does not append values and blocks pairwise (records and blocks would be misaligned)")
 	}
+}
+
+// nilOrValueHelper: c calls a module function every return of which is either nil or one and the
+// same value computed in it; returns the function and that value.
+func nilOrValueHelper(c ssa.CallInstruction) (*ssa.Function, ssa.Value) {
+	h := rawStaticCallee(c)
+	if h == nil || gp == nil || !gp.inMod(h) || len(h.Blocks) == 0 || h.Signature.Results().Len() != 1 {
+		return nil, nil
+	}
+	var val ssa.Value
+	sawNil := false
+	for _, ret := range plainReturnsOf(h) {
+		v := plainDeref(ret.Results[0])
+		if isNilConst(v) {
+			sawNil = true
+			continue
+		}
+		if val != nil && val != v {
+			return nil, nil
+		}
+		val = v
+	}
+	if !sawNil || val == nil {
+		return nil, nil
+	}
+	return h, val
 }
